@@ -59,6 +59,19 @@ def show(p):
     return " + ".join(parts)
 
 
+def of_term(t):
+    """The polynomial of an abstract-evaluator value: ("int", n), ("sym", name) or ("bin", Add|Sub|Mul, l, r)."""
+    if t[0] == "int":
+        return const(t[1])
+    if t[0] == "sym":
+        return sym(str(t[1]))
+    if t[0] == "bin" and t[1] in ("Add", "Sub"):
+        return add(of_term(t[2]), of_term(t[3]), 1 if t[1] == "Add" else -1)
+    if t[0] == "bin" and t[1] == "Mul":
+        return mul(of_term(t[2]), of_term(t[3]))
+    raise Unrecognised(f"term {t} is not a polynomial")
+
+
 def poly(e, resolve=None, lets=None, consts=None, opaque=False):
     lets = lets or {}
     consts = consts or {}
